@@ -9,7 +9,7 @@ MANIFEST_ENTRY = dict(engine="EvmCosmos", design="§4 C02",
 
 
 def run(c):
-    evmrun.run_family(c, "C02", "C02", nquick=600)
+    evmrun.run_family(c, "C02", "C02", nquick=600, nrand=(0, 15000))
 
 
 def replay(path, quiet=False):
